@@ -175,6 +175,8 @@ def fill(index, rep, fn):
     loop = loops[0]
     li = fn.body.index(loop)
     P = [a.arg for a in fn.args.args]
+    from .core import ref_params as _rp18
+    P_CI, P_R1 = _rp18(fn, ["constants_inputs", "interpreted_results_round1"])
     body = [s_ for s_ in fn.body if not (isinstance(s_, ast.Expr) and isinstance(s_.value, ast.Constant))]
     li = body.index(loop)
 
@@ -214,9 +216,10 @@ def fill(index, rep, fn):
             return orig_gi(obj, key, node)
 
         it.getitem = gi
-        env = {P[0]: Obj(None, {}, "self"), P[1]: Path(("ci",)), P[2]: Path(("r1",))}
-        for extra in P[3:]:
-            env[extra] = Path((extra,))
+        env = {P[0]: Obj(None, {}, "self"), P_CI: Path(("ci",)), P_R1: Path(("r1",))}
+        for extra in P[1:]:
+            if extra not in (P_CI, P_R1):
+                env[extra] = Path((extra,))
         it.exec_block(body[:li], env)
         # one generic month
         if not isinstance(loop.target, ast.Name):
@@ -240,7 +243,7 @@ def fill(index, rep, fn):
     except Unsupported as e:
         raise AnalysisError(f"greedy fill outside the analysed fragment: {e}")
     KD = Interp().to_rat(Path(("ci", "NUTRITION", "KCALS_DAILY")))
-    want_iter = ("range(0, " + P[1] + "['NMONTHS'])", "range(" + P[1] + "['NMONTHS'])")
+    want_iter = ("range(0, " + P_CI + "['NMONTHS'])", "range(" + P_CI + "['NMONTHS'])")
     rep.check(norm_src(loop.iter) in want_iter, rule_g, "month-loop:range",
               f"the hand-off is not computed for every month 0..NMONTHS-1 ({norm_src(loop.iter)})", loc=loc(PARAMS, loop))
     n = 0
@@ -351,7 +354,10 @@ def retime(index, rep):
 
         it.call_hook = hook
         obj = Obj(cls, {}, "self")
-        return it.call_function(fn, [r1, r2, Rat.atom(("m1",)), Rat.atom(("m2",))], {}, obj)
+        from .core import bind_named
+        a_, k_ = bind_named(fn, [("round_1_meat_kcals", r1), ("round_2_meat_kcals", r2), ("milk_kcals_round1", Rat.atom(("m1",))),
+                                 ("milk_kcals_round2", Rat.atom(("m2",)))])
+        return it.call_function(fn, a_, k_, obj)
 
     try:
         envs = explore(runit, month_classes=False)
@@ -631,9 +637,12 @@ def bump(index, rep):
     fn = index.func(PARAMS, "Parameters.increase_biofuels_then_feed")
     cls = index.cls(PARAMS, "Parameters")
     names = [a.arg for a in fn.args.args][1:]
-    if names[:2] != ["biofuel", "feed"]:
+    from .core import ref_params as _rpb
+    bf2 = _rpb(fn, ["biofuel", "feed"])
+    if len(names) < 2 or None in bf2:
         raise AnalysisError(f"increase_biofuels_then_feed signature changed: {names}")
     args = [Rat.atom((n,)) for n in names]
+    orig = {n: a for n, a in zip(names, args)}
 
     def runit(it):
         it.classes = {"Parameters": cls}
@@ -651,7 +660,7 @@ def bump(index, rep):
             raise AnalysisError("increase_biofuels_then_feed no longer returns a pair")
         n += 1
         for slot, nm in enumerate(("biofuel", "feed")):
-            inc = res[slot] - args[slot]
+            inc = res[slot] - orig[bf2[slot]]
             at = [a for a in inc.atoms() if isinstance(a, tuple) and a[:2] == ("call", "np.maximum")]
             ok = len(at) == 1 and inc == Rat.atom(at[0]) and any(("np.zeros" in str(x)) or str(x) == "0" for x in at[0][2:])
             rep.check(ok, rule, f"output[{slot}]={nm}+max(0,.)",
